@@ -1,9 +1,10 @@
-//! Shared helpers for the external (public-API) harnesses.
-//!
-//! Everything here is harness-side reference code: fixed-size, heap-free, and
-//! short enough to be read in one sitting (it is part of the trusted base).
-#![allow(dead_code)]
+// Shared helpers for the harnesses (module `util` of the external crate and,
+// through `include!`, `crate::verif::util` of the in-crate harness modules).
+//
+// Everything here is harness-side reference code: fixed-size, heap-free, and
+// short enough to be read in one sitting (it is part of the trusted base).
 
+use core::cmp::Ordering;
 use core::fmt;
 
 /// Fixed-capacity `fmt::Write` sink (no heap), `W` 64-bit words = `8*W`
@@ -88,7 +89,7 @@ impl<const W: usize> Sink<W> {
 			($($i:expr),*) => { $( if $i < W && self.w[$i] != other.w[$i] { return false; } )* };
 		}
 		word!(0, 1, 2, 3, 4, 5, 6, 7, 8, 9, 10, 11, 12, 13, 14, 15);
-		const { assert!(W <= 16) };
+		const { assert!(W <= 16); }
 		true
 	}
 
@@ -175,3 +176,56 @@ pub fn str_is(s: &str, buf: &[u8], len: usize) -> bool {
 	}
 	true
 }
+
+// ---------------------------------------------------------------------------
+// reference: UTF-16 code unit order of two scalar values / short strings
+
+pub fn utf16_units(c: char) -> ([u16; 2], usize) {
+	let u = c as u32;
+	if u < 0x10000 {
+		([u as u16, 0], 1)
+	} else {
+		let v = u - 0x10000;
+		([0xD800 + (v >> 10) as u16, 0xDC00 + (v & 0x3FF) as u16], 2)
+	}
+}
+
+/// Lexicographic order of the UTF-16 encodings of two strings of <= 2 chars.
+pub fn ref_utf16_cmp(a: &[char], b: &[char]) -> Ordering {
+	let mut ua = [0u16; 4];
+	let mut ub = [0u16; 4];
+	let mut na = 0;
+	let mut nb = 0;
+	let mut i = 0;
+	while i < 2 {
+		if i < a.len() {
+			let (u, n) = utf16_units(a[i]);
+			ua[na] = u[0];
+			if n == 2 {
+				ua[na + 1] = u[1];
+			}
+			na += n;
+		}
+		if i < b.len() {
+			let (u, n) = utf16_units(b[i]);
+			ub[nb] = u[0];
+			if n == 2 {
+				ub[nb + 1] = u[1];
+			}
+			nb += n;
+		}
+		i += 1;
+	}
+	let mut i = 0;
+	while i < 4 {
+		if i >= na || i >= nb {
+			break;
+		}
+		if ua[i] != ub[i] {
+			return ua[i].cmp(&ub[i]);
+		}
+		i += 1;
+	}
+	na.cmp(&nb)
+}
+
